@@ -88,6 +88,27 @@ def c05_oracle(case, obs):
         if p is not None and (el < p[0] or se < p[1] or ep < p[2]):
             out.append(("%s: host clocks went back: elapsed %d->%d sim_elapsed %d->%d" % (where, p[0], el, p[1], se), klass))
         last[host] = (el, se, ep)
+    # ---- clock reads made by destructors (task end, crash, bounce) ------------------
+    for d in obs.get("drops", []):
+        if len(d) < 6 or d[4] is None or d[3] < 0 or d[3] >= len(evinfo):
+            continue
+        host, inc, task, evi, se, ep = d[:6]
+        info = evinfo[evi]
+        if info["o"].get("r", "").startswith("panic"):
+            continue
+        klass = K_FAILED if (failed_at is not None and evi >= failed_at) else None
+        where = "destructor of n%d incarnation %d task %d in event %d (%s)" % (host, inc, task, evi, info["name"])
+        if ep != epoch + se:
+            out.append(("%s: since_epoch %d != epoch %d + sim_elapsed %d" % (where, ep, epoch, se), None))
+        if info["name"] in ("crash", "bounce"):
+            # the host is between steps: its clock shows the completed steps
+            if se != info["before"] and klass is None:
+                out.append(("%s: sim_elapsed() = %d while Sim::elapsed is %d" % (where, se, info["before"]), None))
+        else:
+            lo = info["before"]
+            hi = lo + tick if info["name"] == "step" else max(info["after"], lo + tick)
+            if not (lo <= se <= hi):
+                out.append(("%s: sim_elapsed %d outside the window [%d, %d] of its step" % (where, se, lo, hi), klass))
     # ---- a whole-ms timer fires at exactly its virtual instant ---------------------
     by_task = {}
     for e in obs.get("log", []):
